@@ -46,6 +46,7 @@ package interp // import "golang.org/x/tools/go/ssa/interp"
 
 import (
 	"fmt"
+	"strings"
 	"go/token"
 	"go/types"
 	"log"
@@ -203,7 +204,18 @@ func visitInstr(fr *frame, instr ssa.Instruction) continuation {
 		}
 
 	case *ssa.BinOp:
-		fr.env[instr] = binop(instr.Op, instr.X.Type(), fr.get(instr.X), fr.get(instr.Y))
+		func() {
+			defer func() {
+				if r := recover(); r != nil {
+					if s, ok := r.(string); ok && strings.HasPrefix(s, "unsupported:") {
+						tr := " in " + strings.Join(fr.i.ex.fnStack, ">") + " operands " + toString(fr.get(instr.X)) + " ; " + toString(fr.get(instr.Y)) + " path=" + fmt.Sprint(fr.i.ex.Paths)
+						panic(s + " at " + fr.i.prog.Fset.Position(instr.Pos()).String() + tr)
+					}
+					panic(r)
+				}
+			}()
+			fr.env[instr] = binop(instr.Op, instr.X.Type(), fr.get(instr.X), fr.get(instr.Y))
+		}()
 
 	case *ssa.Call:
 		fn, args := prepareCall(fr, &instr.Call)
@@ -507,10 +519,20 @@ func callSSA(i *interpreter, caller *frame, callpos token.Pos, fn *ssa.Function,
 		}
 	}
 	if i.ex != nil && len(i.ex.stubs) > 0 {
-		if st, ok := i.ex.stubs[fn.String()]; ok && !i.ex.inStub[fn.String()] {
-			i.ex.inStub[fn.String()] = true
-			defer func() { i.ex.inStub[fn.String()] = false }()
-			return call(i, caller, callpos, st, args)
+		name := fn.String()
+		if st, ok := i.ex.stubs[name]; ok {
+			if i.ex.stubInner[name] {
+				// contract stub for *recursive* calls: the outermost call runs the real body
+				if i.ex.inStub[name] {
+					return call(i, caller, callpos, st, args)
+				}
+				i.ex.inStub[name] = true
+				defer func() { i.ex.inStub[name] = false }()
+			} else if !i.ex.inStub[name] {
+				i.ex.inStub[name] = true
+				defer func() { i.ex.inStub[name] = false }()
+				return call(i, caller, callpos, st, args)
+			}
 		}
 	}
 	if i.ex != nil && i.ex.wantSummary(fn) {
